@@ -5,7 +5,8 @@
      quara/objects/mprocess.py   : MProcess.calc_proj_ineq_constraint_with_var (assembly rule of the result vector),
                                    convert_var_to_hss, convert_hss_to_var (integer layout: outcome count from the length, inserted / deleted first row)
      quara/objects/{state,povm,gate,mprocess}.py : default of on_para_eq_constraint of the eight static calc_proj_*_constraint_with_var
-     quara/objects/state.py, gate.py : State / Gate.calc_proj_eq_constraint and ..._with_var (the index / slice assignments, performed on a copy).
+     quara/objects/state.py, gate.py : State / Gate.calc_proj_eq_constraint and ..._with_var (the index / slice assignments, performed on a copy)
+     quara/objects/povm.py, mprocess.py : Povm / MProcess.calc_proj_eq_constraint and ..._with_var (loop skeleton + whole-array arithmetic; MProcess on a deep copy).
    For ALL requested flags (None / True / False) and own flags the value every closure hands to its callee as
    on_para_eq_constraint is  resolve req own  (explicit request wins, None = the object's own): this is the clause
    "the object-level and variable-level forms compute the same point under BOTH parametrisations" at the level of the
@@ -13,8 +14,8 @@
    named after.  The flag theorems go by case analysis on the VALUES (6 cases), so any rewriting of the prologue with the same
    meaning (`x if x is not None else self._x`, nested ifs, ...) keeps them valid, while `x or self._x`, passing the own flag,
    a constant, or dropping a forwarded argument breaks them. *)
-From Coq Require Import String List Bool ZArith Lia.
-From QV.Core Require Import OF.
+From Coq Require Import String List Bool ZArith Lia Field Ring.
+From QV.Core Require Import OF Sums.
 From QV.Model Require Import C04_PySem C04_Proj.
 From QVGen Require Import Gen_c04_closures.
 Import ListNotations.
@@ -162,3 +163,58 @@ Theorem gen_gate_eq_proj : forall (F : OF) (sd : F) (d : nat) (H : nat -> nat ->
 Proof. intros F sd d H w a b k. unfold gen_gate_obj_writes, gen_gate_var_writes, gen_gate_var_true_is_arg, interp1, interp2, in_slice, gate_proj_eq, gate_proj_eq_var, e0.
   cbn [fold_left wv]. rewrite <- ?Nat2Z.inj_mul. repeat split; zcases. Qed.
 Print Assumptions gen_gate_eq_proj.
+
+(* ---- Povm / MProcess equality projections: the regenerated arithmetic, put into the (literally matched) loop skeleton, IS the model of
+   Model/C04_Proj.v - for every ordered field, outcome count, dimension, object and index.  The translator additionally enforces that
+   MProcess works on copy.deepcopy of self.hss / of convert_var_to_hss(...) and that Povm never assigns into its input arrays. *)
+Section ArrayPrograms.
+Context (F : OF).
+Add Field Ffa : (k_field F).
+(* c = hstack([first], zeros);  a_bar = sum_y V[y] (axis 0) <op> m;  new_vec = <expr>(vec, a_bar, c)   elementwise *)
+Definition povm_interp (cfirst abar : F -> F -> F) (newvec : F -> F -> F -> F) (sd : F) (m : nat) (V : nat -> nat -> F) : nat -> nat -> F :=
+  fun x a => newvec (V x a) (abar (sumn m (fun y => V y a)) (of_nat m)) (if Nat.eqb a 0 then cfirst sd (of_nat m) else c0 F).
+(* vec = zeros; for hs: vec += hs[acc_row]; vec[dec_idx] -= dec_val; for hs: hs[upd_row] -= <expr>(vec, len(hss)) *)
+Definition mp_interp (acc_row dec_idx upd_row : Z) (dec_val : Z) (upd : F -> F -> F) (m : nat) (H : nat -> nat -> nat -> F) : nat -> nat -> nat -> F :=
+  fun x a b => let vec := csub F (sumn m (fun y => H y (Z.to_nat acc_row) b)) (if (Z.of_nat b =? dec_idx)%Z then of_nat (Z.to_nat dec_val) else c0 F) in
+               if (Z.of_nat a =? upd_row)%Z then csub F (H x a b) (upd vec (of_nat m)) else H x a b.
+
+Lemma gen_povm_eq_proj_F : forall (sd : F) (d m : nat) (V : nat -> nat -> F) (x a : nat),
+  povm_interp (gen_povm_obj_c_first F) (gen_povm_obj_abar F) (gen_povm_obj_newvec F) sd m V x a = povm_proj_eq F sd m V x a /\
+  povm_interp (gen_povm_var_c_first F) (gen_povm_var_abar F) (gen_povm_var_newvec F) sd m V x a = povm_proj_eq F sd m V x a /\
+  gen_povm_obj_c_zeros (Z.of_nat d) = (Z.of_nat (d * d) - 1)%Z /\ gen_povm_var_c_zeros (Z.of_nat d) = (Z.of_nat (d * d) - 1)%Z /\
+  gen_povm_obj_axis = 0%Z /\ gen_povm_var_axis = 0%Z.
+Proof. intros sd d m V x a.
+  unfold povm_interp, gen_povm_obj_c_first, gen_povm_obj_abar, gen_povm_obj_newvec, gen_povm_var_c_first, gen_povm_var_abar, gen_povm_var_newvec,
+    gen_povm_obj_c_zeros, gen_povm_var_c_zeros, gen_povm_obj_size, gen_povm_var_size, gen_povm_obj_axis, gen_povm_var_axis, povm_proj_eq, povm_abar, povm_c.
+  rewrite ?Nat2Z.inj_mul. repeat split; try reflexivity; try lia; destruct (Nat.eqb a 0); (reflexivity || ring). Qed.
+
+Lemma gen_mp_eq_proj_F : forall (d m : nat) (H : nat -> nat -> nat -> F) (x a b : nat),
+  mp_interp gen_mp_obj_acc_row gen_mp_obj_dec_idx gen_mp_obj_upd_row gen_mp_obj_dec_val (gen_mp_obj_upd F) m H x a b = mp_proj_eq F m H x a b /\
+  mp_interp gen_mp_var_acc_row gen_mp_var_dec_idx gen_mp_var_upd_row gen_mp_var_dec_val (gen_mp_var_upd F) m H x a b = mp_proj_eq F m H x a b /\
+  gen_mp_obj_zeros (Z.of_nat d) = Z.of_nat (d * d) /\ gen_mp_var_zeros (Z.of_nat d) = Z.of_nat (d * d).
+Proof. intros d m H x a b.
+  unfold mp_interp, gen_mp_obj_acc_row, gen_mp_obj_dec_idx, gen_mp_obj_upd_row, gen_mp_obj_dec_val, gen_mp_obj_upd,
+    gen_mp_var_acc_row, gen_mp_var_dec_idx, gen_mp_var_upd_row, gen_mp_var_dec_val, gen_mp_var_upd, gen_mp_obj_zeros, gen_mp_var_zeros,
+    mp_proj_eq, mp_defect, e0.
+  rewrite ?Nat2Z.inj_mul. cbn [Z.to_nat]. change (Pos.to_nat 1) with 1%nat. cbn [of_nat].
+  replace (cadd F (c0 F) (c1 F)) with (c1 F) by ring.
+  repeat split; try reflexivity; try lia.
+  all: destruct (Z.eqb_spec (Z.of_nat a) 0) as [Ea|Ea]; [assert (a = 0)%nat by lia; subst a|destruct (Nat.eqb_spec a 0); [lia|reflexivity]].
+  all: cbn [Nat.eqb]. all: destruct (Z.eqb_spec (Z.of_nat b) 0) as [Eb|Eb]; [assert (b = 0)%nat by lia; subst b; cbn [Nat.eqb]|destruct (Nat.eqb_spec b 0); [lia|]].
+  all: (reflexivity || ring). Qed.
+End ArrayPrograms.
+
+Theorem gen_povm_eq_proj : forall (F : OF) (sd : F) (d m : nat) (V : nat -> nat -> F) (x a : nat),
+  povm_interp F (gen_povm_obj_c_first F) (gen_povm_obj_abar F) (gen_povm_obj_newvec F) sd m V x a = povm_proj_eq F sd m V x a /\
+  povm_interp F (gen_povm_var_c_first F) (gen_povm_var_abar F) (gen_povm_var_newvec F) sd m V x a = povm_proj_eq F sd m V x a /\
+  gen_povm_obj_c_zeros (Z.of_nat d) = (Z.of_nat (d * d) - 1)%Z /\ gen_povm_var_c_zeros (Z.of_nat d) = (Z.of_nat (d * d) - 1)%Z /\
+  gen_povm_obj_axis = 0%Z /\ gen_povm_var_axis = 0%Z.
+Proof. exact gen_povm_eq_proj_F. Qed.
+Print Assumptions gen_povm_eq_proj.
+
+Theorem gen_mp_eq_proj : forall (F : OF) (d m : nat) (H : nat -> nat -> nat -> F) (x a b : nat),
+  mp_interp F gen_mp_obj_acc_row gen_mp_obj_dec_idx gen_mp_obj_upd_row gen_mp_obj_dec_val (gen_mp_obj_upd F) m H x a b = mp_proj_eq F m H x a b /\
+  mp_interp F gen_mp_var_acc_row gen_mp_var_dec_idx gen_mp_var_upd_row gen_mp_var_dec_val (gen_mp_var_upd F) m H x a b = mp_proj_eq F m H x a b /\
+  gen_mp_obj_zeros (Z.of_nat d) = Z.of_nat (d * d) /\ gen_mp_var_zeros (Z.of_nat d) = Z.of_nat (d * d).
+Proof. exact gen_mp_eq_proj_F. Qed.
+Print Assumptions gen_mp_eq_proj.
